@@ -17,7 +17,14 @@ Scope (exhaustive inside it):
   * length mismatch at length 0: an empty vector (untyped, typed, produced by an all-False mask or an
     empty slice) against every non-empty vector / list / tuple, and every non-empty vector against an
     empty list / tuple / vector, every operator and operand form; zero-row tables (untyped, sliced,
-    masked) against tables / lists / vectors with rows and the reverse.
+    masked) against tables / lists / vectors with rows and the reverse;
+  * size thresholds and equal-but-distinct elements ("the same rule at every data size"): vectors of
+    length 1001, 1024, 2000 (thorough: also 1000, 1023, 1025, 4097, 10001) built by repeating small pools
+    that hold ==-equal values of different type / sign / identity (0.0 / -0.0, 1 / True / 1.0, 2 / 2.0,
+    IntEnum member / int, equal strings built differently, date next to datetime, None in between): every
+    attribute of the vector kind reachable through broadcasting, the binary operators in the five operand
+    forms, the unary operators and dates + days, element i compared type- and sign-exactly with the Python
+    computation on element i.
 Oracle: a list comprehension over the Python scalars in the written operand order.  A case where
 Python itself raises for some element pair is outside the quantifier and skipped.
 """
@@ -310,9 +317,84 @@ def cases_strengthen(tier):
                             yield {'k': 'tab-mismatch0', 'op': op, 'spec': lit(spec), 'zm': 'rows', 'n': n, 'other': other}
 
 
+# ---- size thresholds x equal-but-distinct elements ----------------------------------------------
+# pool sources are expressions (not lit() output) so that "equal strings built differently" can be written
+BIG_POOLS = {
+    'float': ['[0.0, -0.0]', '[-0.0, 0.0, 2.5, None]', '[2, 2.0, 1.5]', '[2.0, 2, None]', '[True, 1.0, 1]',
+              '[1, 1.0, True, None, 0.5]', '[0, 0.0, -0.0, False, None]'],
+    'int': ['[1, True]', '[True, 1, 0, False]', '[Color.RED, 1, True]', '[None, 1, True, 5]'],
+    'complex': ['[1, (1+0j), True, 1.0]', '[0j, complex(-0.0, 0.0), 0.0, -0.0, None]'],
+    'str': ["['ab', ''.join(['a', 'b']), 'Ab\\tq', None, 'a' + 'b']"],
+    'date': ['[date(2020,1,31), date(2021,3,1), None, date(2020,1,31)]',
+             '[datetime(2020,1,31,0,0), date(2020,1,31), None, datetime(2020,1,31,0,0)]'],
+}
+BIG_SIZES_QUICK = [1001, 1024, 2000]
+BIG_SIZES_MORE = [1000, 1023, 1025, 4097, 10001]
+
+
+def big_expand(pool, n, layout):
+    """cycle: the pool repeated up to n elements; tail: pool[0] repeated, the rest of the pool only at the end
+    (the distinguishable partner appears after every plausible threshold)."""
+    if layout == 'tail':
+        k = len(pool) - 1
+        return [pool[0]] * (n - k) + list(pool[1:]) if n >= len(pool) else list(pool[:n])
+    return [pool[i % len(pool)] for i in range(n)]
+
+
+def big_attributes(kname):
+    if kname in EQ_KINDS:
+        return [(name, prop, args, kw) for name, prop, args, kw in eq_attributes(kname)]
+    return [(name, args is None, args, kw) for kn, name, args, kw, _ in method_table() if kn == kname]
+
+
+def cases_big(tier):
+    sizes = BIG_SIZES_QUICK + (BIG_SIZES_MORE if tier != 'quick' else [])
+    layouts = ['cycle'] + (['tail'] if tier != 'quick' else [])
+    # ---- broadcast attributes
+    for kname, pools in BIG_POOLS.items():
+        attrs = big_attributes(kname)
+        for pool in pools:
+            for n in sizes:
+                for layout in layouts:
+                    for dt in ((None,) if tier == 'quick' or kname not in EQ_KINDS else (None, kname)):
+                        for name, prop, args, kw in attrs:
+                            yield {'k': 'big', 'sub': 'meth', 'kind': kname, 'name': name, 'prop': prop, 'dtype': dt,
+                                   'args': lit(tuple(args)) if args is not None else '()', 'kw': lit(kw or {}),
+                                   'pool': pool, 'n': n, 'layout': layout}
+    # ---- operators
+    scalars = [-1.0, 2] if tier == 'quick' else [1, 1.0, -1.0, True, 0.0, NZ, 2, 1j]
+    for kname in ('float', 'int', 'complex'):
+        for pool in BIG_POOLS[kname]:
+            for n in sizes:
+                for layout in layouts:
+                    base = {'k': 'big', 'pool': pool, 'n': n, 'layout': layout, 'kind': kname}
+                    for op in UNOPS:
+                        yield dict(base, sub='un', op=op)
+                    if (tier == 'quick' and n == 1024) or layout != 'cycle':
+                        continue
+                    first = tier != 'quick' or n == 1001      # quick: the full form table at the first size only
+                    for op in BINOPS:
+                        for sc in scalars:
+                            if first or sc == -1.0:
+                                yield dict(base, sub='bin', op=op, form='vs', other=lit(sc))
+                            if first:
+                                yield dict(base, sub='bin', op=op, form='sv', other=lit(sc))
+                        for form in ('vv', 'vl', 'lv'):
+                            if first or form == 'vv':
+                                yield dict(base, sub='bin', op=op, form=form, other='reversed')
+                            if tier != 'quick' or (first and form == 'vv'):
+                                yield dict(base, sub='bin', op=op, form=form, other='ones')
+    # ---- dates + days
+    for pool in BIG_POOLS['date'][:1]:      # pure date vectors: Python defines no datetime + int
+        for n in sizes:
+            for days in ('3', '[1, None, -3, 40, 0]'):
+                yield {'k': 'big', 'sub': 'days', 'pool': pool, 'n': n, 'layout': 'cycle', 'kind': 'date', 'days': days}
+
+
 def cases(tier, seed):
     yield from cases_base(tier, seed)
     yield from cases_strengthen(tier)
+    yield from cases_big(tier)
 
 
 def cases_base(tier, seed):
@@ -966,9 +1048,160 @@ def eval_tab_mismatch0(case):
                  'an error', obs)]
 
 
+def big_mismatch(got, want):
+    """(index, class) of the first element that is not exactly the Python result, or None."""
+    if len(got) != len(want):
+        return -1, 'wrong-length'
+    for i, (g, w) in enumerate(zip(got, want)):
+        if not exact(g, w):
+            if g is not None and w is not None and type(g) is not type(w) and g == w:
+                return i, 'wrong-element-type'
+            if same(g, w):
+                return i, 'wrong-zero-sign'
+            if w is None:
+                return i, 'none-not-propagated'
+            if g is None:
+                return i, 'spurious-none'
+            return i, 'wrong-value'
+    return None
+
+
+def big_report(fails, prefix, what, a, got, want):
+    bad = big_mismatch(got, want)
+    if bad is None:
+        return
+    i, cls = bad
+    if i < 0:
+        fails.append(Fail(f'{prefix}:large:{cls}', f'{what}: length {len(got)}, expected {len(want)}', len(want), len(got)))
+        return
+    n_bad = sum(1 for g, w in zip(got, want) if not exact(g, w))
+    fails.append(Fail(f'{prefix}:large:{cls}', f'{what}: {n_bad} of {len(want)} elements differ from the Python result, first at i={i}: '
+                      f'element {a[i]!r} -> {got[i]!r}, Python gives {want[i]!r}', want[i], got[i]))
+
+
+def eval_big(case):
+    pool = cev(case['pool'])
+    n, layout, sub = case['n'], case['layout'], case['sub']
+    a = big_expand(pool, n, layout)
+    vsrc = f'Vector({layout}({case["pool"]}, n={n}))'
+    fails = []
+    if sub == 'meth':
+        name, kname, dt = case['name'], case['kind'], case.get('dtype')
+        args, kw = cev(case['args']), cev(case['kw'])
+        try:
+            if case['prop']:
+                want = [None if e is None else getattr(e, name) for e in a]
+            else:
+                want = [None if e is None else getattr(e, name)(*args, **kw) for e in a]
+        except Exception:
+            return []
+        what = vsrc + f'.{name}' + ('' if case['prop'] else f'(*{case["args"]}, **{case["kw"]})')
+        s = f'C05:broadcast.{kname}.{name}'
+        try:
+            if dt:
+                v = Vector(a, dtype=DataType(KIND[dt], nullable=any(e is None for e in a)))
+            else:
+                v = Vector(a)
+        except Exception as e:
+            if dt:
+                return []
+            return [Fail(f'{s}:large:raised-{type(e).__name__}', what + f' raised {e!r}', None, repr(e))]
+        try:
+            attr = getattr(v, name)
+            r = attr if case['prop'] else attr(*args, **kw)
+        except Exception as e:
+            return [Fail(f'{s}:large:raised-{type(e).__name__}', what + f' raised {e!r}', None, repr(e))]
+        if not isinstance(r, Vector) or isinstance(r, Table):
+            return [Fail(f'{s}:large:not-a-vector', what + f' returned {type(r).__name__}', 'Vector', type(r).__name__)]
+        big_report(fails, s, what, a, list(r), want)
+        if not exact(list(v), a):
+            fails.append(Fail(f'{s}:large:operand-mutated', what, None, None))
+        m = truthful(r)
+        if m:
+            fails.append(Fail(f'C03:broadcast.{kname}.{name}:truthful', what + ': ' + m[:300], None, repr(r.schema())))
+        return fails
+    if sub == 'un':
+        op = case['op']
+        f = UNOPS[op]
+        try:
+            want = [None if x is None else f(x) for x in a]
+        except Exception:
+            return []
+        what = f'{op} {vsrc}'
+        try:
+            v = Vector(a)
+            s = f'C05:{owner(v, "__" + op + "__")}.__{op}__'
+            r = f(v)
+        except Exception as e:
+            return [Fail(f'C05:Vector.__{op}__:large:raised-{type(e).__name__}', what + f' raised {e!r}', None, repr(e))]
+        if not isinstance(r, Vector):
+            return [Fail(f'{s}:large:not-a-vector', what, 'Vector', type(r).__name__)]
+        big_report(fails, s, what, a, list(r), want)
+        if not exact(list(v), a):
+            fails.append(Fail(f'{s}:large:operand-mutated', what, None, None))
+        m = truthful(r)
+        if m:
+            fails.append(Fail(f'C03:{s[4:]}:truthful', what + ': ' + m[:300], None, repr(r.schema())))
+        return fails
+    if sub == 'bin':
+        op, form, other = case['op'], case['form'], case['other']
+        f = BINOPS[op]
+        if other == 'reversed':
+            o, osrc = list(reversed(a)), 'reversed(same)'
+        elif other == 'ones':
+            o, osrc = [1] * n, f'[1] * {n}'
+        else:
+            o, osrc = cev(other), other
+        left, right = (o, a) if form in ('sv', 'lv') else (a, o)
+        xs = left if isinstance(left, list) else [left] * n
+        ys = right if isinstance(right, list) else [right] * n
+        try:
+            want = scalar_results(f, xs, ys)
+        except Skip:
+            return []
+        s = 'C05:' + site(op, form, left, right)
+        lsrc = osrc if form in ('sv', 'lv') else vsrc
+        rsrc = vsrc if form in ('sv', 'lv') else (f'Vector({osrc})' if form == 'vv' else osrc)
+        what = f'{lsrc} {op} {rsrc}'
+        try:
+            r, vecs, _ = apply_form(op, form, left, right)
+        except Exception as e:
+            return [Fail(f'{s}:large:raised-{type(e).__name__}', what + f' raised {e!r}; Python defines every element pair', None, repr(e))]
+        if not isinstance(r, Vector) or isinstance(r, Table):
+            return [Fail(f'{s}:large:not-a-vector', what, 'Vector', type(r).__name__)]
+        big_report(fails, s, what, xs if form not in ('sv', 'lv') else ys, list(r), want)
+        for v, src in zip(vecs, ([left, right] if form == 'vv' else [left] if form in ('vs', 'vl') else [right])):
+            if not exact(list(v), list(src)):
+                fails.append(Fail(f'{s}:large:operand-mutated', what, None, None))
+        m = truthful(r)
+        if m:
+            fails.append(Fail(f'C03:{s[4:]}:truthful', what + ': ' + m[:300], None, repr(r.schema())))
+        return fails
+    # dates + days
+    days = cev(case['days'])
+    ys = [days[i % len(days)] for i in range(n)] if isinstance(days, list) else [days] * n
+    want = [None if (x is None or y is None) else x + timedelta(days=y) for x, y in zip(a, ys)]
+    isvec = isinstance(days, list)
+    s = 'C05:_Date.__add__.days-' + ('vector' if isvec else 'scalar')
+    what = f'{vsrc} + ' + (f'Vector(cycle({case["days"]}, n={n}))' if isvec else case['days'])
+    try:
+        v = Vector(a)
+        r = v + (Vector(ys) if isvec else days)
+    except Exception as e:
+        return [Fail(f'{s}:large:raised-{type(e).__name__}', what + f' raised {e!r}', None, repr(e))]
+    if not isinstance(r, Vector):
+        return [Fail(f'{s}:large:not-a-vector', what, 'Vector', type(r).__name__)]
+    big_report(fails, s, what, a, list(r), want)
+    m = truthful(r)
+    if m:
+        fails.append(Fail(f'C03:{s[4:]}:truthful', what + ': ' + m[:300], None, repr(r.schema())))
+    return fails
+
+
 EVAL = {'bin': eval_bin, 'mismatch': eval_mismatch, 'un': eval_un, 'days': eval_days, 'days-mismatch': eval_days_mismatch,
         'tab': eval_tab, 'tab-mismatch': eval_tab_mismatch, 'meth': eval_meth, 'empty': eval_empty,
-        'mismatch0': eval_mismatch0, 'tab-mismatch0': eval_tab_mismatch0}
+        'mismatch0': eval_mismatch0, 'tab-mismatch0': eval_tab_mismatch0,
+        'big': eval_big}
 
 
 def evaluate(case):
@@ -980,6 +1213,9 @@ def evaluate(case):
 
 def nontrivial(case):
     k = case['k']
+    if k == 'big':
+        return (k, case['sub'], case['kind'], case.get('name') or case.get('op') or 'days', case.get('form'), case['pool'],
+                case['n'] > 1000, case['layout'])
     if k in ('bin', 'mismatch'):
         a, b = cev(case['a']), cev(case['b'])
         xs = a if isinstance(a, list) else [a]
@@ -1013,7 +1249,10 @@ if __name__ == '__main__':
               'reflected list): all ordered pairs of a 13-value pool at length 1, empty operands, per-dtype-family sequences at lengths 2,3 '
               'with None at every subset of positions, every unequal length pair; Table op scalar / Table op Table up to 3x3; every public '
               'str/int/float/date attribute from dir(kind) through attribute broadcasting at lengths 0..3 with None at every subset; '
-              'dates + int / timedelta.  Oracle: Python list comprehension over the scalars in written order; cases where Python raises are skipped. '
+              'dates + int / timedelta; size thresholds x equal-but-distinct elements: vectors of length 1001, 1024, 2000 (thorough also 1000, 1023, 1025, 4097, 10001) '
+              'repeating pools with 0.0/-0.0, 1/True/1.0, 2/2.0, IntEnum/int, equal strings, date/datetime, None: every broadcast attribute of the kind, the binary operators in '
+              'five forms, unary operators, dates + days, element by element type- and sign-exactly.  Oracle: Python list comprehension over the scalars in written order; cases where Python raises are skipped. '
               'distinct = (operator, form, operand type families, length, has-None)',
-         bound=lambda tier: {'pool': 13, 'max_len': 3, 'table': '3x3', 'len3': 'pattern+None-subsets' if tier == 'quick' else 'all sequences over family pools'},
+         bound=lambda tier: {'pool': 13, 'max_len': 3, 'table': '3x3', 'large_sizes': BIG_SIZES_QUICK + ([] if tier == 'quick' else BIG_SIZES_MORE),
+                             'large_pools': BIG_POOLS, 'len3': 'pattern+None-subsets' if tier == 'quick' else 'all sequences over family pools'},
          nontrivial=nontrivial)
